@@ -3542,9 +3542,13 @@ impl BytecodeVM {
                     if let ExoticObject::PendingOrder { id, .. } = &obj_ref.exotic {
                         let order_id = crate::OrderId(*id);
                         drop(obj_ref);
+                        // The answer replaces the marker in the operand register and the await
+                        // is executed again on it: a plain value is the result, a promise the
+                        // host answered with is awaited in its turn
+                        self.ip = self.ip.saturating_sub(1);
                         return Ok(OpResult::SuspendForOrder {
                             order_id,
-                            resume_register: dst,
+                            resume_register: promise,
                         });
                     }
 
